@@ -600,6 +600,9 @@ func r4seqof(c *core.Ctx) {
 
 // r4seqofEnc: the encoder mirror of R4.seqof.
 func r4seqofEnc(c *core.Ctx, R string) {
+	if r4seqofEncX(c, R) {
+		return
+	}
 	enc := mustFunc(c, pAper, "perRawBitData.parseSequenceOf")
 	pe := core.NewPather(enc)
 	okSub, okRawE := false, false
